@@ -683,6 +683,52 @@ pub fn run(args: &Args) {
 		emit_value(&mut out, &v);
 	}
 
+	// MAX_NESTING_DEPTH = 1024 approached by every OTHER counter that could be confused with the depth: number of
+	// siblings / empty arrays / empty objects / closed containers / strings / keys in a FLAT document (depth 1–3), and
+	// open-close sequences at one level just below the limit
+	for cnt in [1023usize, 1024, 1025, 1100, 3000] {
+		let kinds: Vec<(&str, Box<dyn Fn(usize) -> JsonValue>)> = vec![
+			("empty-arrays", Box::new(|_| JsonValue::Array(JsonArray(vec![])))),
+			("empty-objects", Box::new(|_| JsonValue::Object(JsonObject::default()))),
+			("arrays", Box::new(|i| JsonValue::Array(JsonArray(vec![JsonValue::Number(i as f64)])))),
+			("objects", Box::new(|i| JsonValue::Object(JsonObject(BTreeMap::from([("k".to_string(), JsonValue::Number(i as f64))]))))),
+			("strings", Box::new(|i| JsonValue::String(format!("s{i}")))),
+			("mixed", Box::new(|i| match i % 4 {
+				0 => JsonValue::Array(JsonArray(vec![])),
+				1 => JsonValue::Object(JsonObject::default()),
+				2 => JsonValue::Array(JsonArray(vec![JsonValue::Array(JsonArray(vec![]))])),
+				_ => JsonValue::Null,
+			})),
+		];
+		for (name, make) in &kinds {
+			out.count(&format!("flat_{name}"));
+			let items: Vec<JsonValue> = (0..cnt).map(|i| make(i)).collect();
+			// as array elements, as object members, and one level further down
+			if cnt > 1100 && !["empty-arrays", "mixed"].contains(name) {
+				continue;
+			}
+			emit_value(&mut out, &JsonValue::Array(JsonArray(items.clone())));
+			if cnt <= 1025 && ["empty-arrays", "empty-objects", "mixed"].contains(name) {
+				let members: BTreeMap<String, JsonValue> = items.iter().enumerate().map(|(i, v)| (format!("k{i:04}"), v.clone())).collect();
+				emit_value(&mut out, &JsonValue::Object(JsonObject(members)));
+				emit_value(&mut out, &JsonValue::Array(JsonArray(vec![JsonValue::Object(JsonObject(BTreeMap::from([("a".to_string(), JsonValue::Array(JsonArray(items.clone())))])))])));
+			}
+		}
+	}
+	// siblings right below the limit: 1022 / 1023 wrappers around a few empty and non-empty containers
+	for wrap in [1021usize, 1022, 1023] {
+		let mut v = JsonValue::Array(JsonArray(vec![
+			JsonValue::Array(JsonArray(vec![])),
+			JsonValue::Object(JsonObject::default()),
+			JsonValue::Array(JsonArray(vec![])),
+			JsonValue::Array(JsonArray(vec![JsonValue::Null])),
+			JsonValue::Object(JsonObject::default()),
+		]));
+		for i in 0..wrap - 1 {
+			v = if i % 2 == 0 { JsonValue::Array(JsonArray(vec![v.clone(), JsonValue::Array(JsonArray(vec![])), JsonValue::Null])) } else { JsonValue::Object(JsonObject(BTreeMap::from([("a".to_string(), JsonValue::Object(JsonObject::default())), ("k".to_string(), v)]))) };
+		}
+		emit_value(&mut out, &v);
+	}
 	let n = args.n(2500, 40000);
 	for i in 0..n {
 		let depth = match i % 10 {
@@ -711,6 +757,10 @@ pub fn run(args: &Args) {
 	for &off in &[15usize, 16, 17, 31, 32, 255, 256, 257, 511, 512, 1023, 1024, 1025, 4095, 4096, 4097, 8192] {
 		for ch in ["é", "€", "😊"] {
 			for back in 0..ch.len() {
+				// (the Lean model's string loop is quadratic: beyond 1 KiB only one character and two positions, thorough: all)
+				if off > 600 && !args.thorough() && (ch != "€" || back == 1) {
+					continue;
+				}
 				// the character starts `back` bytes before `off`, so that it covers offset `off` (or ends right at it)
 				let start = off.saturating_sub(back);
 				for (head, tail) in [("[\"", "\", x"), ("{\"k\":\"", "\" 1}"), ("[\"", ""), ("  [1, \"", "\\u12")] {
@@ -754,5 +804,9 @@ pub fn run(args: &Args) {
 	io::run(args, &mut out, &mut rng);
 	nd::run(args, &mut out, &mut rng);
 	tj::run(args, &mut out, &mut rng);
+	// CHECKLIST.md classes that cannot occur for this property (the others are covered, see the rule text / MANIFEST)
+	out.notes.push("checklist 2 (faults after open): n.a. – every reader parses the metadata once in open(); get_tilejson() returns the in-memory document, there is no later I/O to fail (a torn or undecodable metadata blob at open is C12/C19 territory; try_from_blob_or_default then yields the default document)".into());
+	out.notes.push("checklist 3 (payload classes): metadata is never empty (the document always has `tilejson`) and is not de-duplicated; covered: lengths 127 B … 64 KiB ±1 (1 MiB in the thorough tier), compressible and incompressible, in all containers".into());
+	out.notes.push("checklist 6 (scheduling): the only concurrent code on this path is read_ndjson_stream (buffered, order-preserving) – compared item by item with read_ndjson_iter on every NDJSON input; container metadata is read synchronously".into());
 	out.finish();
 }
